@@ -233,6 +233,17 @@ func layersOf(s *Spec) []Layer {
 		return []Layer{mk(s, "*errutil.withPrefix", Prefix, fmtText(s))}
 	case "stack":
 		return []Layer{stackL(s)}
+	case "stackdeep":
+		// a withStack layer that captured no frame: no reportable stack
+		return []Layer{mk(s, "*withstack.withStack", Transparent, "")}
+	case "hintf0":
+		l := mk(s, "*hintdetail.withHint", Transparent, "")
+		l.Hint = "lit " + S(0)
+		return []Layer{l}
+	case "detailf0":
+		l := mk(s, "*hintdetail.withDetail", Transparent, "")
+		l.Detail = "lit " + S(0)
+		return []Layer{l}
 	case "hint":
 		l := mk(s, "*hintdetail.withHint", Transparent, "")
 		l.Hint = S(0)
@@ -484,6 +495,14 @@ func layersOf(s *Spec) []Layer {
 			t += "; " + Text(x)
 		}
 		l := mk(s, "*gen.UMultiCause", Leaf, t)
+		l.Multi = s.X
+		return []Layer{l}
+	case "umultias":
+		t := S(0)
+		for _, x := range s.X {
+			t += "; " + Text(x)
+		}
+		l := mk(s, "*gen.UMultiAs", Leaf, t)
 		l.Multi = s.X
 		return []Layer{l}
 	case "umulticauser":
